@@ -143,27 +143,49 @@ def q9a(k: int, kind: int) -> str:
 
 
 # ---------------------------------------------------------------- Q9b the process is killed
+OPS9B = {}
+
+
+def _build9b(sh, hashing):
+    be, shape = sh["be"], sh["shape"]
+    pr = Project(shape, be, hashing=hashing)
+    pr.add_sources(5)
+    w = pr.w
+    if sh.get("prior"):
+        # an earlier, complete invocation left state files behind
+        w.vfs.add(w.tracked_path(), 1, json.dumps({"Old": "1" if be != "local" else 1}))
+        if hashing:
+            pr.write_hashes({"Old": "0" * 40})
+    if w.sim is not None:
+        w.sim.tick = lambda exe: w.vfs.tick("cmd:" + exe, exe)
+    return pr
+
+
+def setup_q9b(shard):
+    """The bound on the crash index is derived from the code: the number of operations an uninterrupted run performs."""
+    for hashing in (False, True):
+        pr = _build9b(shard, hashing)
+        pr.w.install()
+        try:
+            pr.w.run()
+            OPS9B[hashing] = pr.w.vfs.ops
+        finally:
+            pr.w.uninstall()
+
+
 def _q9b(k, hashing):
     sh = q.SHARD
     be, shape = sh["be"], sh["shape"]
-    if not (1 <= k and k <= sh["maxk"]):
+    hashing = True if hashing else False
+    if not (1 <= k and k <= OPS9B[hashing]):
         return q.SKIP
     kk = 1
     while kk < k:
         kk += 1
-    hashing = True if hashing else False
     with q.notrace():
-        pr = Project(shape, be, hashing=hashing)
-        pr.add_sources(5)
+        pr = _build9b(sh, hashing)
         w = pr.w
-        if sh.get("prior"):
-            # an earlier, complete invocation left state files behind
-            pr.w.vfs.add(w.tracked_path(), 1, json.dumps({"Old": "1" if be != "local" else 1}))
-            if hashing:
-                pr.write_hashes({"Old": "0" * 40})
         w.vfs.crash_at = kk
-        if w.sim is not None:
-            w.sim.tick = lambda exe: w.vfs.tick("cmd:" + exe, exe)
         w.install()
     try:
         crashed = False
@@ -175,7 +197,7 @@ def _q9b(k, hashing):
                 raise
             crashed = True
         if not crashed:
-            return q.SKIP              # fewer than k operations: nothing was interrupted
+            return "crash index %d within the %d operations of an uninterrupted run, but nothing was interrupted" % (kk, OPS9B[hashing])
         ops_before = [op for op in w.vfs.log]
         w.vfs.crash_at = None
         w.vfs.frozen = False
@@ -227,10 +249,10 @@ QUERIES = [
                 "thorough": [{"be": b, "shape": s, "maxk": 7, "prior": p} for b in ("slurm", "sge", "lsf", "local") for s in ("chain2", "fork3", "chain3") for p in (False, True)]},
      "timeout": {"quick": 900, "thorough": 1800},
      "bound": "(optionally after an earlier complete run whose jobs then failed / were cancelled) fault at the k-th scheduler command of the first run (k symbolic, up to the number of commands the run issues: state queries and submissions), 3 fault kinds; then a fault-free run; chain of 2, fork of 3 (quick); + chain of 3, all backends (thorough); spec hashing on"},
-    {"name": "W9b", "fn": w9b, "shards": [], "timeout": 60, "bound": "witness of the known finding C09-hard-kill-loses-ids (concrete)"},
-    {"name": "Q9b", "fn": q9b,
-     "shards": {"quick": [{"be": "slurm", "shape": "chain2", "maxk": 30}, {"be": "slurm", "shape": "chain2", "maxk": 30, "prior": True}],
-                "thorough": [{"be": b, "shape": s, "maxk": 45, "prior": p} for b in ("slurm", "sge", "lsf") for s in ("chain2", "fork3") for p in (False, True)]},
+    {"name": "W9b", "fn": w9b, "setup": setup_q9b, "shards": [], "timeout": 60, "bound": "witness of the known finding C09-hard-kill-loses-ids (concrete)"},
+    {"name": "Q9b", "fn": q9b, "setup": setup_q9b,
+     "shards": {"quick": [{"be": "slurm", "shape": "chain2"}, {"be": "slurm", "shape": "chain2", "prior": True}, {"be": "sge", "shape": "chain2"}, {"be": "lsf", "shape": "chain2", "prior": True}],
+                "thorough": [{"be": b, "shape": s, "prior": p} for b in ("slurm", "sge", "lsf", "local") for s in ("chain2", "fork3") for p in (False, True)]},
      "timeout": {"quick": 900, "thorough": 1800},
-     "bound": "hard kill at the k-th operation of the first run (k symbolic over every mutating file-system primitive - each write() call of json.dump separately, os.replace - and every scheduler command, before and after it took effect); hashing on/off; with/without state files of an earlier invocation; then a normal run"},
+     "bound": "hard kill at the k-th operation of the first run (k symbolic from 1 to the number of operations an uninterrupted run performs - measured concretely at start-up, 23..52 here - i.e. every mutating file-system primitive - each write() call of json.dump separately, os.replace - and every scheduler command, before and after it took effect); hashing on/off; with/without state files of an earlier invocation; then a normal run"},
 ]
